@@ -603,8 +603,14 @@ GAME_GO = ["go", "go wtime 250 btime 250 movestogo 1", "go wtime 0 btime 0", "go
 def game_sessions(rng, live, n, prefix, plies=5, golines=None):
     """n sessions that play a GUI-style game each (see uci_driver `game`), starting from pool positions"""
     games, shard = [], []
+    # positions in which both sides can still castle and capture at once (what an ordering value carried over from the
+    # engine's own last move would promote: castling and en-passant successors inherit it)
+    rich = ["position fen r3k2r/pppq1ppp/2npbn2/2b1p3/2B1P3/2NPBN2/PPPQ1PPP/R3K2R w KQkq - 0 1",
+            "position fen r3k2r/ppp2ppp/2n1bn2/3pp3/3PP3/2N1BN2/PPP2PPP/R3K2R w KQkq - 0 1",
+            "position startpos moves e2e4 e7e5 g1f3 g8f6 f1c4 f8c5 d2d3 d7d6",
+            "position fen r3k2r/8/8/3pP3/3Pp3/8/8/R3K2R w KQkq d6 0 1"]
     for gi in range(n):
-        cmd = rng.choice(live) if gi % 3 else "position startpos"
+        cmd = "position startpos" if gi % 3 == 0 else (rich[(gi // 3) % len(rich)] if gi % 3 == 1 else rng.choice(live))
         parts = cmd.split(" moves ")
         gl = list(golines or GAME_GO)
         rng.shuffle(gl)
@@ -689,7 +695,7 @@ def c16(tier, replay):
     logs = run_sessions(binary, sessions, 6)
     # GUI-style games (position <game so far> / go / reply / ...; the reply is the one the engine predicted or another
     # process's move): every go of the game is a probe, asked again of a fresh process afterwards
-    games, gshard = game_sessions(rng, live, 4 if q else 30, "gm")
+    games, gshard = game_sessions(rng, live, 6 if q else 36, "gm")
     plan(h, games)
     glogs = run_sessions(binary, games, 4)
     fresh, fshard = fresh_probes(glogs, gshard)
